@@ -33,7 +33,17 @@ impl Scenario for C08 {
             read_faults: true,
             heartbeat: 0,
         };
-        let life = gen_life(&mut cs, &lc);
+        // a third of the sessions negotiate a 1 s heartbeat and the server takes up to 2.6 s to answer
+        // the client's Close (heartbeat timers keep firing while the close handshake is pending)
+        let hb = if cs.choose("c08_heartbeat", 3) == 0 { 1u16 } else { 0 };
+        let lc = LifeCfg { heartbeat: hb, ..lc };
+        let mut life = gen_life(&mut cs, &lc);
+        if hb > 0 {
+            life.gen.broker.tune.2 = hb;
+            life.gen.broker.heartbeat_every_ns = Some(400_000_000);
+            life.gen.broker.closeok_delay_ns = cs.choose("closeok_delay_ms", 2600) as u64 * 1_000_000;
+            life.gen.sched.hang_after_ns = 60_000_000_000;
+        }
         let (res, world) = run_generated(&life.gen, cs, text, |_| {});
         let mut rep = CaseReport::default();
         fill_common(&mut rep, &res, &world);
@@ -56,7 +66,7 @@ impl Scenario for C08 {
                 return rep;
             }
         };
-        // last frame ever written (any channel): by offset
+        // last frame ever written (any channel, heartbeats included): by offset
         let mut last: Option<(usize, u16, AMQPFrame)> = None;
         for (ch, v) in &per {
             for (off, _, f) in v {
@@ -65,6 +75,14 @@ impl Scenario for C08 {
                 }
             }
         }
+        if let Ok((_, raw, _)) = crate::wire::split_stream(&n.c2s, false) {
+            if let Some(f) = raw.last() {
+                if f.ty == 8 && last.as_ref().map(|l| f.offset > l.0).unwrap_or(true) {
+                    last = Some((f.offset, f.channel, AMQPFrame::Heartbeat(f.channel)));
+                }
+            }
+        }
+        rep.count("c08.heartbeat_sessions", (hb > 0) as u64);
         let client_close_on_wire = per.get(&0).map(|v| v.iter().any(|(_, _, f)| matches!(f, AMQPFrame::Method(_, AMQPClass::Connection(Cn::Close(_)))))).unwrap_or(false);
         let server_close: Option<(u16, String, u64)> = world.broker.sent.iter().find_map(|s| if let SentKind::ConnectionClose { code, text } = &s.kind { Some((*code, text.clone(), s.stamp)) } else { None });
         let close_rec = res.hist.conn.iter().find_map(|c| if let ConnRec::Close { result, invoke, ret, .. } = c { Some((result.clone(), *invoke, *ret)) } else { None });
